@@ -665,7 +665,45 @@ static CHUNK_KINDS: [Kind; 1] = [Kind::Chunk];
 static REQ_KINDS: [Kind; 1] = [Kind::Request];
 static RESP_KINDS: [Kind; 1] = [Kind::Response];
 
+fn families(w: Which, r: &Runner) {
+    let accept: &(dyn Fn(Entry, u8) -> bool + Sync) = match w {
+        Which::C06 => &|e: Entry, _c: u8| e.kind() == Kind::Request,
+        Which::C07 => &|e: Entry, _c: u8| e.kind() == Kind::Response,
+        Which::C08 => &|e: Entry, c: u8| e.kind() != Kind::Chunk && c == 0,
+        Which::C09 => &|e: Entry, _c: u8| e.kind() == Kind::Chunk,
+        Which::C10 => &|e: Entry, _c: u8| e.kind() != Kind::Chunk,
+        Which::C14 => &|e: Entry, _c: u8| matches!(e.kind(), Kind::Request | Kind::Response),
+    };
+    families_phase(r, "model", accept, move |r, ctx, l, rec| check(w, r, ctx, l, rec));
+    dict_phase(r, "model", accept, move |r, ctx, l, rec| check(w, r, ctx, l, rec));
+    // well-known literals: 256 values at every position + every prefix
+    let mut offs = vec![0u64];
+    for (b, _) in LITERAL_BASES.iter() {
+        offs.push(offs.last().unwrap() + b.len() as u64 * 257);
+    }
+    r.par_enum("well-known literal messages (HTTP/2 preface, HEAD, CONNECT, 100-continue, ...): 256 values at every position + every prefix", *offs.last().unwrap(), |ctx, l, idx| {
+        let bi = offs.partition_point(|&o| o <= idx) - 1;
+        let (base, entry) = LITERAL_BASES[bi];
+        if !accept(entry, 0) {
+            return Ok(());
+        }
+        let x = idx - offs[bi];
+        let pos = (x / 257) as usize;
+        let v = x % 257;
+        let buf = if v == 256 {
+            base[..pos].to_vec()
+        } else {
+            let mut b = base.to_vec();
+            b[pos] = v as u8;
+            b
+        };
+        let rec = CaseRec::new("model", entry, 0, 8, buf);
+        check(w, r, ctx, l, &rec)
+    });
+}
+
 pub fn run(w: Which, r: &Runner) {
+    families(w, r);
     match w {
         Which::C06 => {
             phase_start_sweep(w, r);
